@@ -200,11 +200,14 @@ def make_roundtrip(init):
 
 
 def contracts(tier):
-    inits = [0xFFFF, 0x7DBD] if tier == "quick" else [0xFFFF, 0x7DBD, 0x0001, 0x8000, 0xA5A5, 0x0000, 0x1234]
+    quick = tier == "quick"
+    inits = [0xFFFF, 0x7DBD] if quick else [0xFFFF, 0x7DBD, 0x0001, 0x8000, 0xA5A5, 0x0000, 0x1234]
     for iv in inits:
         yield ("ScramblerLFSR", f"init_{iv:04x}", make_lfsr(iv))
     for iv in inits:
-        yield ("Scrambler", f"init_{iv:04x}", make_scrambler(Scrambler, iv))
-        yield ("Descrambler", f"init_{iv:04x}", make_scrambler(Descrambler, iv))
+        yield ("Scrambler", f"init_{iv:04x}", make_scrambler(Scrambler, iv))        # 0xffff: as instantiated by the physical layer; 0x7dbd: class default
+        if not quick or iv == 0xFFFF:                                                # Descrambler default / as instantiated: 0xffff
+            yield ("Descrambler", f"init_{iv:04x}", make_scrambler(Descrambler, iv))
     for iv in inits:
-        yield ("Scrambler->Descrambler", f"init_{iv:04x}", make_roundtrip(iv))
+        if not quick or iv == 0xFFFF:
+            yield ("Scrambler->Descrambler", f"init_{iv:04x}", make_roundtrip(iv))
